@@ -65,6 +65,15 @@ def units(tier, seed):
             block = []
     if block:
         u.append(block)
+    if tier == "quick":  # four factors: all families of <= 2 terms (the four-way interaction needs three rounds of helper terms)
+        fs4 = ["f", "g", "h", "f2"]
+        t4 = subsets(fs4)
+        block = []
+        for fam in [[t] for t in t4] + [[a, b] for a in t4 for b in t4 if a != b]:
+            for icpt in (True, False):
+                block.append({"terms": fam, "icpt": icpt, "lv": {f: 2 for f in fs4}})
+        for i in range(0, len(block), 120):
+            u.append(block[i : i + 120])
     # other level-count vectors: sorted and reversed term order
     vecs = [v for v in itertools.product([2, 3], repeat=3) if v != (2, 2, 2)]
     fs3 = ["f", "g", "h"]
